@@ -33,6 +33,7 @@ EVQ = call(r"= KyroDBServiceImpl::enforce_vector_quota\(", name="enforce_vector_
 RESERVE = call(r"= KyroDBServiceImpl::reserve_tenant_vectors\(", name="reserve_tenant_vectors")
 RELEASE = call(r"= KyroDBServiceImpl::release_reserved_tenant_vectors\(", name="release_reserved_tenant_vectors")
 DECR = call(r"= KyroDBServiceImpl::decrement_tenant_vectors\(", name="decrement_tenant_vectors")
+GIVEBACK = call(r"= KyroDBServiceImpl::(decrement_tenant_vectors|release_reserved_tenant_vectors)\(", name="give a slot back (decrement_tenant_vectors / release_reserved_tenant_vectors)")
 E_INSERT = call(r"= TieredEngine::insert\(", name="engine.insert")
 E_EXISTS = call(r"= TieredEngine::exists\(", name="engine.exists")
 E_BULK = call(r"= TieredEngine::bulk_load_cold_tier\(", name="engine.bulk_load_cold_tier")
@@ -58,19 +59,21 @@ def insert_accounting(name):
             only_via(f, E_INSERT, EVQ_OK),
             follows(f, EVQ_OK, E_INSERT, exit="any", exit_ev=STREAM_NEXT),
             follows(f, EVQ_OK, E_INSERT, exit="return"),
-            follows(f, INS_ERR, DECR, exit="any", exit_ev=STREAM_NEXT, cut=[ALREADY({"otherwise"})]),
-            follows(f, INS_ERR, DECR, exit="return", cut=[ALREADY({"otherwise"})]),
-            follows(f, INS_OK, STREAM_NEXT, exit="any", exit_ev=DECR),
-            follows(f, ALREADY({"otherwise"}), STREAM_NEXT, exit="any", exit_ev=DECR),
-            lambda F: amount_is(F, f, DECR, 2, r"^const 1_usize$", "1"),
+            follows(f, INS_ERR, GIVEBACK, exit="any", exit_ev=STREAM_NEXT, cut=[ALREADY({"otherwise"})]),
+            follows(f, INS_ERR, GIVEBACK, exit="return", cut=[ALREADY({"otherwise"})]),
+            follows(f, INS_OK, STREAM_NEXT, exit="any", exit_ev=GIVEBACK),
+            follows(f, ALREADY({"otherwise"}), STREAM_NEXT, exit="any", exit_ev=GIVEBACK),
+            only_via(f, GIVEBACK, ALREADY({"0"})),
+            lambda F: amount_is(F, f, GIVEBACK, 2, r"^const 1_usize$", "1"),
         )
     return allof(
         only_via(f, E_INSERT, EVQ_OK),                                     # no engine insert after a refused reservation
         follows(f, EVQ_OK, E_INSERT, exit="return"),                        # a reservation is never leaked by an early return before the insert
-        follows(f, INS_ERR, DECR, exit="return", cut=[ALREADY({"otherwise"})]),  # failed insert of a NEW document gives the slot back
-        never(f, DECR, frm=INS_OK),                                        # a successful insert keeps its slot
-        never(f, DECR, frm=ALREADY({"otherwise"})),                        # an overwrite reserved nothing, so nothing is given back
-        lambda F: amount_is(F, f, DECR, 2, r"^const 1_usize$", "1"),
+        follows(f, INS_ERR, GIVEBACK, exit="return", cut=[ALREADY({"otherwise"})]),  # failed insert of a NEW document gives the slot back
+        never(f, GIVEBACK, frm=INS_OK),                                        # a successful insert keeps its slot
+        never(f, GIVEBACK, frm=ALREADY({"otherwise"})),                        # an overwrite reserved nothing, so nothing is given back
+        only_via(f, GIVEBACK, ALREADY({"0"})),                                 # ... i.e. every give-back is guarded by `!already_exists`
+        lambda F: amount_is(F, f, GIVEBACK, 2, r"^const 1_usize$", "1"),
     )
 
 
@@ -274,7 +277,7 @@ MOS = [
     MO("O14.2/delete", "Delete: decrement by 1 iff the engine reports existed == true; BatchDelete: decrement by the reported count on Ok, never on Err",
        delete_accounting, functions=[(BIN, "delete"), (BIN, "batch_delete")], target="kyrodb_server"),
     MO("O14.3/insert_locked", "Insert / BulkInsert / BulkLoadHnsw: exists-check + reservation, the engine write and every give-back happen while the tenant's quota mutex is held",
-       allof(held_all(RPC("insert"), [EVQ, E_INSERT, DECR]), held_all(RPC("bulk_insert"), [EVQ, E_INSERT, DECR]), held_all(RPC("bulk_load_hnsw"), [E_EXISTS, RESERVE, E_BULK, RELEASE])),
+       allof(held_all(RPC("insert"), [EVQ, E_INSERT, GIVEBACK]), held_all(RPC("bulk_insert"), [EVQ, E_INSERT, GIVEBACK]), held_all(RPC("bulk_load_hnsw"), [E_EXISTS, RESERVE, E_BULK, RELEASE])),
        functions=[(BIN, "insert"), (BIN, "bulk_insert"), (BIN, "bulk_load_hnsw")], target="kyrodb_server"),
     MO("O14.3/delete_locked", "Delete / BatchDelete: the ownership check, the engine deletion and the decrement happen while the tenant's quota mutex is held (otherwise an upsert that saw the document as existing can interleave and the count drifts below the live documents)",
        allof(held_all(RPC("delete"), [E_GETMETA, E_DELETE, DECR], absent=True), held_all(RPC("batch_delete"), [E_BDEL, DECR], absent=True)),
